@@ -13,15 +13,15 @@ import (
 )
 
 type Clause struct {
-	Tags []string
-	E    Expr
-	Text string
-	Ord  int
-	Name string // optional label
-	Case int    // >0: clause applies to that spec case only
-	Axiom bool  // assumed at call sites, not checked in the body (determinism of a read-only function)
-	File string
-	Line int
+	Tags  []string
+	E     Expr
+	Text  string
+	Ord   int
+	Name  string // optional label
+	Case  int    // >0: clause applies to that spec case only
+	Axiom bool   // assumed at call sites, not checked in the body (determinism of a read-only function)
+	File  string
+	Line  int
 }
 
 type SpecCase struct {
@@ -45,32 +45,32 @@ type TaintDecl struct {
 }
 
 type Contract struct {
-	Key      string
-	Kind     string // func | trusted | interface
-	Params   []string
-	Results  []string
-	Cases    []*SpecCase // at least one
-	Modifies []Expr
-	ModAll   bool
-	Loops    map[int][]*Clause
-	Pure     bool
-	File     string
-	Line     int
-	NoInline bool
-	Unverified string // non-empty: the body is not verified against the contract (assumed); reason
-	GhostInc []string // ghost counters incremented by one on entry (ghost code of the function)
-	GhostIncSite []string // counters incremented only where an interface contract is applied at a dynamic call
-	GhostSet map[string]int64 // ghost variables set on entry
-	Implements []string       // interface-method contracts whose clauses this function inherits
-	Afters   []AfterStmt       // auxiliary ghost assignments after calls (caller-owned history variables)
-	Taints   []TaintDecl       // taint sources: locations labelled at entry (C18)
-	TaintAware bool            // the contract states taint explicitly (no default propagation)
-	Alias    map[string]int    // extra parameter names (of inherited clauses) -> parameter index
-	Inl      bool // callers inline the body instead of using the contract
-	Witness  []string
-	Lemmas   []*Clause
-	Asserts  map[string][]*Clause // "call <callee>#n" -> clauses checked before that call
-	UsedBy   map[string]bool
+	Key          string
+	Kind         string // func | trusted | interface
+	Params       []string
+	Results      []string
+	Cases        []*SpecCase // at least one
+	Modifies     []Expr
+	ModAll       bool
+	Loops        map[int][]*Clause
+	Pure         bool
+	File         string
+	Line         int
+	NoInline     bool
+	Unverified   string           // non-empty: the body is not verified against the contract (assumed); reason
+	GhostInc     []string         // ghost counters incremented by one on entry (ghost code of the function)
+	GhostIncSite []string         // counters incremented only where an interface contract is applied at a dynamic call
+	GhostSet     map[string]int64 // ghost variables set on entry
+	Implements   []string         // interface-method contracts whose clauses this function inherits
+	Afters       []AfterStmt      // auxiliary ghost assignments after calls (caller-owned history variables)
+	Taints       []TaintDecl      // taint sources: locations labelled at entry (C18)
+	TaintAware   bool             // the contract states taint explicitly (no default propagation)
+	Alias        map[string]int   // extra parameter names (of inherited clauses) -> parameter index
+	Inl          bool             // callers inline the body instead of using the contract
+	Witness      []string
+	Lemmas       []*Clause
+	Asserts      map[string][]*Clause // "call <callee>#n" -> clauses checked before that call
+	UsedBy       map[string]bool
 }
 
 type SpecFun struct {
